@@ -495,6 +495,11 @@ impl Runner {
                 }
             }
         }
+        // the caller does not hoard what it received (keeps the monitored state small in long runs)
+        if self.received.len() > 48 {
+            let old: Vec<Token> = self.received.drain(..32).collect();
+            drop(old);
+        }
         self.obs();
         ended
     }
